@@ -36,7 +36,7 @@ RFC_REQUEST_LINE = r"[!#$%&'*+\-.^_`|~0-9A-Za-z]+ [\x21-\x7e\x80-\xff]+ HTTP/[0-
 @unit("C01", "request_line.language", [(M, "_ABNF"), (M, "parse_request_start_line")])
 def u_reqline(c):
     import tornado.httputil as U
-    if not c.symbolic:
+    if not c.symbolic and c.model is None:
         line = c.rng.choice(["GET / HTTP/1.1", "GET  / HTTP/1.1", "G@T / HTTP/1.1", "GET / HTTP/2.0", "GET /a b HTTP/1.1", "GET / HTTP/1.1\n", "M!x * HTTP/1.0", c.str("line")])
         out = c.call(U.parse_request_start_line, line)
         c.only_raises(out, (U.HTTPInputError,))
@@ -69,7 +69,7 @@ def u_ints(c):
     import tornado.http1connection as H
     which = c.choose("fn", ["parse_int", "parse_hex_int"])
     s = c.str("text", latin1=True)
-    if not c.symbolic:
+    if not c.symbolic and c.model is None:
         s = c.rng.choice(["0", "12", "+3", "1_0", " 4", "4 ", "a", "A0", "0x1", "", "١", "5\n", s])
     with c.patched(*regex.regex_patches(H)):
         out = c.call(c.fn(H1, which), s)
@@ -113,7 +113,7 @@ def u_te(c):
     has_te = c.choose("Transfer-Encoding present", [True, False])
     has_cl = c.choose("Content-Length present", [False, True])
     te = c.str("te", latin1=True) if has_te else None
-    if has_te and not c.symbolic:
+    if has_te and not c.symbolic and c.model is None:
         te = c.rng.choice(["chunked", "Chunked", "gzip", "chunked, gzip", ",chunked", "", te])
     h = HdrStub({"Transfer-Encoding": te, "Content-Length": "3" if has_cl else None})
     out = c.call(c.fn(H1, "is_transfer_encoding_chunked"), h)
@@ -134,7 +134,7 @@ def u_host(c):
     version = c.choose("version", ["HTTP/1.1", "HTTP/1.0"])
     has_host = c.choose("Host present", [True, False])
     host = c.str("host", latin1=True) if has_host else None
-    if has_host and not c.symbolic:
+    if has_host and not c.symbolic and c.model is None:
         host = c.rng.choice(["example.com", "a:80", "a:", "[::1]:8080", "a b", "a,b", "a:" + "9" * 5000, "", "A.B:1", host])
     h = U.HTTPHeaders()
     if has_host:
